@@ -1,0 +1,53 @@
+// Copyright (c) 2019 Meng Huang (mhboy@outlook.com)
+// This package is licensed under a MIT license that can be found in the LICENSE file.
+
+//go:build verif
+// +build verif
+
+package rpc
+
+// Machine-checked contracts for the verification framework in /verif (govc).
+// This file contains comments only. Every line starting with "//@" is a contract
+// clause; clauses are keyed by function name (as printed by go/ssa relative to this
+// package) and by loop / block ordinal, never by line number.
+
+// ---------------------------------------------------------------------------
+// Part 1: wire format
+// ---------------------------------------------------------------------------
+
+//@ pure vsize(x uint64) uint64 = ite(x < 1<<7, 1, ite(x < 1<<14, 2, ite(x < 1<<21, 3, ite(x < 1<<28, 4,
+//@      ite(x < 1<<35, 5, ite(x < 1<<42, 6, ite(x < 1<<49, 7, ite(x < 1<<56, 8, ite(x < 1<<63, 9, 10)))))))))
+
+//@ func code.SizeofVarint
+//@   property C07
+//@   ensures result == vsize(v)
+
+//@ func checkBuffer
+//@   property C07 C12 C19
+//@   requires 0 <= n && n <= 1<<47
+//@   ensures len(result) == n
+//@   ensures arr(result) == arr(buf) || fresh(result)
+//@   ensures implies(cap(buf) >= n, arr(result) == arr(buf) && off(result) == off(buf))
+
+//@ pure legalUpgrade(u *upgrade) bool = u.NoRequest <= 1 && u.NoResponse <= 1 && u.Heartbeat <= 1 && u.Stream <= 3
+//@ pure upgradeByte(u *upgrade) byte = u.NoRequest<<7 | u.NoResponse<<6 | u.Heartbeat<<5 | u.Stream<<3
+
+//@ func (*upgrade).Marshal
+//@   property C07
+//@   requires u != nil && legalUpgrade(u)
+//@   ensures err == nil && len(result) == 1 && result[0] == upgradeByte(u)
+//@   ensures implies(cap(buf) >= 1, arr(result) == arr(buf) && off(result) == off(buf))
+//@   ensures implies(cap(buf) < 1, fresh(result))
+//@   modifies buf[0:1]
+
+//@ func (*upgrade).Unmarshal
+//@   property C07 C08
+//@   requires u != nil
+//@   ensures implies(len(data) == 0, result == 0 && err != nil && u.NoRequest == old(u.NoRequest) && u.Stream == old(u.Stream))
+//@   ensures implies(len(data) >= 1, result == 1 && err == nil && legalUpgrade(u) && upgradeByte(u) == data[0] & 0xF8)
+//@   modifies *u
+
+//@ func (*upgrade).IsZero
+//@   property C07
+//@   requires u != nil && legalUpgrade(u)
+//@   ensures result == (u.NoRequest == 0 && u.NoResponse == 0 && u.Heartbeat == 0 && u.Stream == 0)
